@@ -26,6 +26,27 @@ int main(int argc, char** argv) {
   { Rotation R; R.setRotationFromQuaternion(Quaternion(p,true)); rep("quat orthonormal", nrm(Mat33(Mat33(R)*~Mat33(R)-Mat33(1)))); rep("quat det", std::fabs(det(Mat33(R))-1));
     Quaternion q = R.convertRotationToQuaternion(); Rotation Rb; Rb.setRotationFromQuaternion(q); rep("quat round trip", nrm(Mat33(Mat33(Rb)-Mat33(R)))); rep("quat unit", std::fabs(q.asVec4().norm()-1)); rep("quat canonical", q[0] < 0 ? 1 : 0);
     SymMat33 S(1.5, 0.2,2.5, -0.3,0.4,3.5); SymMat33 out = R.reexpressSymMat33(S); Mat33 ref = Mat33(R)*Mat33(S)*~Mat33(R); rep("reexpressSymMat33", nrm(Mat33(Mat33(out)-ref))); }
+  // angle-extraction round trips, generic and at the exact singularities of the middle angle
+  { const double mids[5] = {t[1], 0.0, Pi, -Pi, Pi/2};
+    for (int bs=0;bs<2;bs++) for(int i=0;i<3;i++) for(int j=0;j<3;j++) for(int k=0;k<3;k++) { if (i==j||j==k) continue;
+      for (int m=0;m<5;m++) { if (m==4 && i==k) continue; if ((m==1||m==2||m==3) && i!=k) continue;
+        BodyOrSpaceType B = bs?SpaceRotationSequence:BodyRotationSequence;
+        Rotation R0; R0.setRotationFromThreeAnglesThreeAxes(B, t[0],ax[i], mids[m],ax[j], t[2],ax[k]);
+        Vec3 a = R0.convertThreeAxesRotationToThreeAngles(B, ax[i],ax[j],ax[k]);
+        Rotation R1; R1.setRotationFromThreeAnglesThreeAxes(B, a[0],ax[i], a[1],ax[j], a[2],ax[k]);
+        sprintf(nm,"%s %d%d%d middle=%g: R(convertToAngles(R))==R",bs?"space":"body",i,j,k,mids[m]); rep(nm, nrm(Mat33(Mat33(R1)-Mat33(R0))), 1e-7); } }
+    for (int i=0;i<3;i++) for (int m=0;m<2;m++) { double mid = m? -Pi/2 : Pi/2; for (int bs=0;bs<2;bs++) { int j=(i+1)%3,k=(i+2)%3; BodyOrSpaceType B = bs?SpaceRotationSequence:BodyRotationSequence;
+        Rotation R0; R0.setRotationFromThreeAnglesThreeAxes(B, t[0],ax[i], mid,ax[j], t[2],ax[k]); Vec3 a = R0.convertThreeAxesRotationToThreeAngles(B, ax[i],ax[j],ax[k]);
+        Rotation R1; R1.setRotationFromThreeAnglesThreeAxes(B, a[0],ax[i], a[1],ax[j], a[2],ax[k]); rep("three-axis gimbal lock round trip", nrm(Mat33(Mat33(R1)-Mat33(R0))), 1e-7);
+        Rotation R2; R2.setRotationFromThreeAnglesThreeAxes(B, t[0],ax[k], mid,ax[j], t[2],ax[i]); Vec3 b = R2.convertThreeAxesRotationToThreeAngles(B, ax[k],ax[j],ax[i]);
+        Rotation R3; R3.setRotationFromThreeAnglesThreeAxes(B, b[0],ax[k], b[1],ax[j], b[2],ax[i]); rep("three-axis gimbal lock round trip (reverse cyclical)", nrm(Mat33(Mat33(R3)-Mat33(R2))), 1e-7); } } }
+  // quaternion -> angle-axis, canonical and non-canonical unit quaternions
+  for (int sgn=0; sgn<2; sgn++) { Vec4 e = sgn? Vec4(-p) : p; Quaternion q(e, true); Vec4 av = q.convertQuaternionToAngleAxis();
+    Rotation Ra; if (Vec3(av[1],av[2],av[3]).norm() > 0) Ra.setRotationFromAngleAboutNonUnitVector(av[0], Vec3(av[1],av[2],av[3])); Rotation Rq; Rq.setRotationFromQuaternion(q);
+    rep(sgn? "angle-axis of non-canonical quaternion describes R(q)":"angle-axis of quaternion describes R(q)", nrm(Mat33(Mat33(Ra)-Mat33(Rq))), 1e-9); }
+  { Quaternion a(Vec4(0.5,0.5,0.5,0.5),true); Vec4 prod = Vec4(a[0]*a[0]-a[1]*a[1]-a[2]*a[2]-a[3]*a[3], 2*a[0]*a[1], 2*a[0]*a[2], 2*a[0]*a[3]);   // 120 deg twice about the same axis: scalar part -0.5
+    Quaternion q(prod,true); Vec4 av=q.convertQuaternionToAngleAxis(); Rotation Ra; Ra.setRotationFromAngleAboutNonUnitVector(av[0], Vec3(av[1],av[2],av[3])); Rotation Rq; Rq.setRotationFromQuaternion(q);
+    rep("angle-axis of q120*q120", nrm(Mat33(Mat33(Ra)-Mat33(Rq))), 1e-9); }
   // sweep quaternion branches too
   for (int b=0;b<4;b++){ Vec4 e(0.1,0.1,0.1,0.1); e[b]=0.95; e=e/e.norm(); Rotation R; R.setRotationFromQuaternion(Quaternion(e,true)); Quaternion q=R.convertRotationToQuaternion(); Rotation Rb; Rb.setRotationFromQuaternion(q); sprintf(nm,"quat round trip branch %d",b); rep(nm, nrm(Mat33(Mat33(Rb)-Mat33(R)))); }
   printf(bad ? "REPRODUCED: %d identities violated natively\n" : "NOT-REPRODUCED (%d)\n", bad);
